@@ -69,8 +69,9 @@ def do_step(step, root):
     if op == "compress":
         sr = spikeglx.Reader(binf)
         out = sr.compress_file(keep_original=step["keep_original"], **ckw)
+        shape_after = tuple(int(x) for x in sr.shape)          # same object, not re-opened
         sr.close()
-        return {"out": os.path.relpath(out, root)}
+        return {"out": os.path.relpath(out, root), "shape_after": shape_after}
     if op == "decompress":
         sr = spikeglx.Reader(cbin)
         kw = {"overwrite": True} if step.get("overwrite") else {}
@@ -86,15 +87,19 @@ def do_step(step, root):
     if op == "inplace_cycle":
         sr = spikeglx.Reader(cbin)
         kw = {"overwrite": True} if step.get("overwrite") else {}
+        shapes = [tuple(int(x) for x in sr.shape)]
         sr.decompress_file(keep_original=False, **kw)
         sr.open()
+        shapes.append(tuple(int(x) for x in sr.shape))
         a = np.array(sr[: min(50, sr.ns), :])
         sr.close()
         sr.compress_file(keep_original=False, **ckw)
+        shapes.append(tuple(int(x) for x in sr.shape))      # the carried object, not re-opened yet
         sr.open()
+        shapes.append(tuple(int(x) for x in sr.shape))
         b = np.array(sr[: min(50, sr.ns), :])
         sr.close()
-        return {"same": bool(np.array_equal(a, b)), "is_mtscomp": bool(sr.is_mtscomp)}
+        return {"same": bool(np.array_equal(a, b)), "is_mtscomp": bool(sr.is_mtscomp), "shapes": shapes}
     raise ValueError(op)
 
 
@@ -124,7 +129,9 @@ def _gen_world(r, tier):
     ns = r.choice([1000, 1500, 3000, 4097, 8000, r.randrange(1000, 12000), r.randrange(1000, 40000)])
     if nap == 384:
         ns = min(ns, 4000)
-    return {"fixture": fixture, "nap": nap, "ns": ns, "data_seed": r.randrange(1 << 30)}
+    # metadata without fileSizeBytes/fileTimeSecs (what a running/interrupted acquisition leaves) is a legal input
+    meta_form = "none" if r.random() < 0.12 else "complete"
+    return {"fixture": fixture, "nap": nap, "ns": ns, "data_seed": r.randrange(1 << 30), "meta_form": meta_form}
 
 
 def _gen_knobs(r):
@@ -219,8 +226,9 @@ class World:
         self.fs = world.meta_fs(w["fixture"])
         self.O = world.make_data(w["data_seed"], w["ns"], w["nap"])
         self.Obytes = self.O.tobytes()
-        world.write_recording(self.root, STEM, w["fixture"], self.O)
-        world.write_recording(self.oracle, STEM, w["fixture"], self.O)
+        sf = "none" if w.get("meta_form") == "none" else "complete"
+        world.write_recording(self.root, STEM, w["fixture"], self.O, size_fields=sf)
+        world.write_recording(self.oracle, STEM, w["fixture"], self.O, size_fields=sf)
         self.bin = self.root / f"{STEM}.ap.bin"
         self.cbin = self.root / f"{STEM}.ap.cbin"
         self.ch = self.root / f"{STEM}.ap.ch"
@@ -381,6 +389,8 @@ def _exec_step(W, st, model, log, stats, bump, seed, progress=False):
         if fired["kind"] == "kill" and (lc.startswith("rename") or lc.startswith("move")):
             bump("probes", "kill_before_publish")
     # ---- clauses on the durable state (every post-state, faulted or not)
+    if not W.meta.exists():
+        raise Violation("C02.A2", f"{sig0}:meta-removed", "the recording's metadata file was removed | " + ctx)
     if sha1_file(W.meta) != W.meta_sha:
         raise Violation("C02.A2", f"{sig0}:meta-changed", "metadata file changed | " + ctx)
     if after["cbin"] == "other":
@@ -435,6 +445,11 @@ def _exec_step(W, st, model, log, stats, bump, seed, progress=False):
                 raise Violation("C02.R", f"{sig0}:scratch-meta", "no metadata copied next to the scratch file | " + ctx)
         if op == "inplace_cycle" and not (out["ok"]["same"] and out["ok"]["is_mtscomp"]):
             raise Violation("C02.T", f"{sig0}:cycle-read", "reads through the carried Reader differ across the in-place cycle | " + ctx)
+        want_shape = [W.w["ns"], W.nc]
+        if op == "inplace_cycle" and any(list(sh) != want_shape for sh in out["ok"]["shapes"]):
+            raise Violation("C02.T", f"{sig0}:cycle-shape", f"shape through the carried Reader changed across the in-place cycle: {out['ok']['shapes']} (recording is {want_shape}) | " + ctx)
+        if op == "compress" and list(out["ok"].get("shape_after", want_shape)) != want_shape:
+            raise Violation("C02.T", f"{sig0}:shape-after-compress", f"shape reported by the Reader that compressed the file: {out['ok']['shape_after']} (recording is {want_shape}) | " + ctx)
     elif fired is None and st.get("expect_refusal") and out is not None and "exc" in out:
         # refused, as documented: then nothing may have changed
         bump("probes", "naive_retry_refused")
